@@ -110,20 +110,29 @@ def check(ctx):
                     any(isinstance(c, ast.Call) and isinstance(c.func, ast.Attribute) and c.func.attr == 'start'
                         and pseudo(c.func.value) == n.target.id for c in ast.walk(n)):
                 started = True
-    cnts = [n for n in own_nodes(fetch.node) if isinstance(n, ast.Assign) and pseudo(n.targets[0]) and pseudo(n.value) in fetch.params
-            and not isinstance(F.env.get(pseudo(n.value)), channels.Chan)]
+    # the collector's marker count: counted down from the expected number to 0, or up from 0 to the expected number
     cnt = None
     n_awaited = None
+    count_up = False
     floop = [n for n in own_nodes(fetch.node) if isinstance(n, ast.While)]
-    if len(cnts) == 1:
-        cnt = pseudo(cnts[0].targets[0])
-        n_awaited = F.resolve(cnts[0].value)
-    else:
-        # the parameter itself may be counted down
-        decs = [n for n in ast.walk(fetch.node) if isinstance(n, ast.AugAssign) and isinstance(n.op, ast.Sub) and pseudo(n.target) in fetch.params]
-        if len(decs) == 1:
-            cnt = pseudo(decs[0].target)
-            n_awaited = F.resolve(decs[0].target)
+    steps_ = [n for n in ast.walk(fetch.node) if isinstance(n, ast.AugAssign) and isinstance(n.op, (ast.Sub, ast.Add))
+              and isinstance(n.value, ast.Constant) and n.value.value == 1 and pseudo(n.target)]
+    if len(steps_) == 1:
+        cnt = pseudo(steps_[0].target)
+        count_up = isinstance(steps_[0].op, ast.Add)
+        inits = [n.value for n in own_nodes(fetch.node) if isinstance(n, ast.Assign) and pseudo(n.targets[0]) == cnt]
+        if not count_up:
+            if cnt in fetch.params and not inits:
+                n_awaited = F.resolve(steps_[0].target)
+            elif len(inits) == 1 and pseudo(inits[0]) in fetch.params and not isinstance(F.env.get(pseudo(inits[0])), channels.Chan):
+                n_awaited = F.resolve(inits[0])
+        else:
+            # compared with the expected number
+            cmps = [c for c in ast.walk(fetch.node) if isinstance(c, ast.Compare) and len(c.ops) == 1 and pseudo(c.left) == cnt
+                    and isinstance(c.ops[0], (ast.Eq, ast.GtE)) and pseudo(c.comparators[0]) in fetch.params]
+            if len(inits) == 1 and isinstance(inits[0], ast.Constant) and inits[0].value == 0 and len(cmps) == 1:
+                n_awaited = F.resolve(cmps[0].comparators[0])
+                limit_name = pseudo(cmps[0].comparators[0])
     run.check(ok_a and started and n_markers is not None and n_markers == n_workers == n_awaited, 'R21', fork.where, fork.qualname,
               '(a) markers enqueued == workers started == markers awaited',
               'producer / workers / collector do not agree on the number of end markers (%s / %s / %s): the run ends early '
@@ -138,8 +147,18 @@ def check(ctx):
     okc = len(sigs) >= 2
     decided = set()
     for s in sigs:
+        from sa.pathvals import PathValues as _PV
+        penv = _PV(s.path).env
+
+        def chan_on_path(recv):
+            # a local that names the queue on this path (`target = q_in` under the predicate) is followed
+            nm_ = pseudo(recv)
+            v_ = penv.get(nm_) if nm_ else None
+            if v_ is not None and pseudo(v_) and isinstance(Pr.env.get(pseudo(v_)), channels.Chan):
+                return Pr.env[pseudo(v_)]
+            return Pr.chan_of(recv)
         puts_all = [c for c in s.calls if isinstance(c.func, ast.Attribute) and c.func.attr in ('put', 'put_nowait')
-                    and Pr.chan_of(c.func.value) is not None]
+                    and (chan_on_path(c.func.value) is not None or Pr.chans_of(c.func.value))]
         pred = []
         for t, pol in s.guards:
             t, pol = norm_compare(t, pol)
@@ -148,7 +167,7 @@ def check(ctx):
         good = len(pred) == 1 and len(s.guards) == 1 and len(puts_all) == 1 and s.term in (FALL, CONTINUE) and \
             puts_all[0].args and pseudo(puts_all[0].args[0]) == var
         if good:
-            target = Pr.chan_of(puts_all[0].func.value)
+            target = chan_on_path(puts_all[0].func.value)
             good = (target is I) if pred[0] else (target is D or target is O)
             decided.add(pred[0])
         okc = okc and good
@@ -210,35 +229,44 @@ def check(ctx):
     if oki:
         run.ok('R21', work.where, '(i) the row function is called by the workers only')
     # ---- (e) collector
-    oke = len(floop) == 1 and cnt is not None
+    oke = len(floop) == 1 and cnt is not None and n_awaited is not None
     if oke:
         rv = get_var(floop[0], O, F)
         oke = rv is not None
+        allmk = [c for c in chan_calls(list(ast.walk(fetch.node)), F, D, 'put', 'marker') if not channels.in_handler(c, fetch.node)]
+        oke = oke and len(allmk) == 1
+        marker_after_loop = oke and channels.runs_after(allmk[0], floop[0], fetch.node)
         for p in (Enumerator(where=fetch.qualname).body_paths(floop[0]) if oke else []):
             nodes = list(path_nodes(p))
             mt = marker_test(p, rv)
-            zero = None
+            done = None
             for t, pol in p.guards():
                 t, pol = norm_compare(t, pol)
-                if match_expr('%s == 0' % cnt, t) is not None or match_expr('%s <= 0' % cnt, t) is not None:
-                    zero = pol
-                elif match_expr('%s > 0' % cnt, t) is not None:
-                    zero = not pol
-                elif pseudo(t) == cnt:
-                    zero = not pol
+                if not count_up:
+                    if match_expr('%s == 0' % cnt, t) is not None or match_expr('%s <= 0' % cnt, t) is not None:
+                        done = pol
+                    elif match_expr('%s > 0' % cnt, t) is not None:
+                        done = not pol
+                    elif pseudo(t) == cnt:
+                        done = not pol
+                else:
+                    if match_expr('%s == %s' % (cnt, limit_name), t) is not None or match_expr('%s >= %s' % (cnt, limit_name), t) is not None:
+                        done = pol
+                    elif match_expr('%s < %s' % (cnt, limit_name), t) is not None:
+                        done = not pol
             fw = chan_calls(nodes, F, D, 'put', rv)
             mk = chan_calls(nodes, F, D, 'put', 'marker')
-            dec = [n for n in nodes if isinstance(n, ast.AugAssign) and isinstance(n.op, ast.Sub) and pseudo(n.target) == cnt
-                   and u(n.value) == '1']
+            dec = [n for n in nodes if n is steps_[0]]
             gets = chan_calls(nodes, F, O, 'get')
             if mt is None or len(gets) != 1:
                 oke = False
             elif not mt:
                 oke = oke and len(fw) == 1 and not mk and not dec and p.term in (FALL, CONTINUE)
-            elif zero is True:
-                oke = oke and len(dec) == 1 and len(mk) == 1 and not fw and p.term in (BREAK, RETURN) and \
-                    dec[0].lineno <= mk[0].lineno
-            elif zero is False:
+            elif done is True:
+                # the last marker: leave the loop; the single marker for the consumer is put here or right after the loop
+                oke = oke and len(dec) == 1 and not fw and p.term in (BREAK, RETURN) and \
+                    ((len(mk) == 1 and nodes.index(dec[0]) < nodes.index(mk[0])) if not marker_after_loop else (not mk and p.term == BREAK))
+            elif done is False:
                 oke = oke and len(dec) == 1 and not mk and not fw and p.term in (CONTINUE, FALL)
             else:
                 oke = False
